@@ -10,23 +10,35 @@
    hidden steps (H...) at any time, for every bundle limit, position interval, read batch size and
    channel capacity `c`.  `runG false` restricts runs to the property's domain: a notification never
    runs ahead of the log.  `runG true` additionally demands that a flush sends its mails before it
-   writes the position (what FlushBundles does not guarantee - finding F21). *)
+   writes the position.  `code_cfg` are the configurations of the code as it is: read batch size, channel
+   capacity and the two orders (position batch last inside the view storage; view storage last in
+   FlushBundles - the repair of finding F21, /repo 2745d7601) are what the translator read from the source. *)
 From Coq Require Import List NArith Lia Bool.
-From V Require Import Gen.Params C09_Actualizer.Model C09_Actualizer.Inv C09_Actualizer.Proofs C09_Actualizer.Link.
+From V Require Import Gen.Params C09_Actualizer.Model C09_Actualizer.Inv C09_Actualizer.Proofs C09_Actualizer.Link C09_Actualizer.Oracle.
 Import ListNotations.
 Local Open Scope N_scope.
 
-(* side conditions on what the translator read from the Go sources *)
+(* side conditions on what the translator read from the Go sources: a regression of one of them flips
+   the constant, the lemma fails and with it every theorem below that is stated for `code_cfg` *)
 Lemma read_batches_are_not_empty : 0 < c09_plog_read_batch_size.
 Proof. reflexivity. Qed.
 Lemma position_row_is_written_after_the_workspace_rows : c09_null_wsid_last = true.
 Proof. reflexivity. Qed.
+Lemma view_storage_is_flushed_last : c09_flush_view_last = true.
+Proof. reflexivity. Qed.
 Lemma pipeline_input_has_room : 0 < c09_pipeline_stdin_cap.
 Proof. reflexivity. Qed.
 
-(* the configuration of every checked trace meets the hypotheses of the theorems below *)
-Lemma checked_configurations_ok : forall t, 0 < c_batch (cfg_of t) /\ c_nulllast (cfg_of t) = true.
-Proof. intros t. split; reflexivity. Qed.
+(* the code's configurations: any bundle limit, buffered or not (second storage), any position interval *)
+Definition code_cfg (limit : N) (nonbuf : bool) (posticks : N) : cfg :=
+  mkCfg limit nonbuf posticks c09_plog_read_batch_size c09_pipeline_stdin_cap c09_null_wsid_last c09_flush_view_last.
+
+Lemma code_cfg_ok : forall lim nb pt, cfg_ok (code_cfg lim nb pt).
+Proof. intros. constructor; [exact read_batches_are_not_empty | exact position_row_is_written_after_the_workspace_rows]. Qed.
+
+(* every checked trace is evaluated in such a configuration *)
+Lemma checked_configurations : forall t, cfg_of t = code_cfg (t_limit t) (t_nonbuf t) (t_posticks t).
+Proof. reflexivity. Qed.
 
 (* Between two (re)initialisations the projector is invoked for exactly the triggering events that
    follow the position the initialisation read, in log order, each once, none skipped:
@@ -37,22 +49,31 @@ Theorem invoked_in_order : forall c l s,
             /\ fst (tracked l) + N.of_nat k <= len (lg (sp s)).
 Proof. exact (fun c l s Hb Hn => invoked_in_order_proved c l s (Build_cfg_ok c Hb Hn)). Qed.
 
-(* The persisted resume position is never ahead of the persisted view rows: at every instant of
-   every run - in particular right after each storage call, whatever fails or stops next - every
-   triggering event up to the stored position has its row stored. *)
+(* The persisted resume position is never ahead of the persisted effects: at every instant of every
+   run of the code's configurations - in particular right after each storage call, whatever fails or
+   stops next - every triggering event up to the stored position has its view row stored and its
+   mail (the effect in a second storage, sys.SendMail) sent. *)
+Theorem position_le_all_effects : forall lim nb pt l s,
+  runG false (code_cfg lim nb pt) init l = Some s ->
+  forall o, o <= pos (sp s) -> trig (lg (sp s)) o = true ->
+  In o (eff (sp s)) /\ (mailev (code_cfg lim nb pt) (lg (sp s)) o = true -> In o (mails (sp s))).
+Proof.
+  intros lim nb pt l s H o Ho Ht. split.
+  - exact (position_le_effects_proved _ l s (code_cfg_ok lim nb pt) H o Ho Ht).
+  - exact (position_le_mails_viewlast_proved _ l s (code_cfg_ok lim nb pt) view_storage_is_flushed_last H o Ho Ht).
+Qed.
+
+(* The view rows alone do not depend on the order of the storages: any configuration that writes the
+   position batch last inside the view storage. *)
 Theorem position_le_effects : forall c l s,
   0 < c_batch c -> c_nulllast c = true -> runG false c init l = Some s ->
   forall o, o <= pos (sp s) -> trig (lg (sp s)) o = true -> In o (eff (sp s)).
 Proof. exact (fun c l s Hb Hn => position_le_effects_proved c l s (Build_cfg_ok c Hb Hn)). Qed.
 
-(* Full statement for the effects in a second storage (mails sent through sys.SendMail):
-
-     forall c l s, 0 < c_batch c -> c_nulllast c = true -> runG false c init l = Some s ->
-     forall o, o <= pos (sp s) -> trig (lg (sp s)) o = true -> mailev c (lg (sp s)) o = true -> In o (mails (sp s)).
-
-   The faithful model refutes it (F21: FlushBundles applies the storages in Go map order, so the
-   view storage - and with it the position - can be written before the mail is sent; when the
-   mail then fails, the restart resumes behind the event and the mail is never sent). *)
+(* The variant of the model in which FlushBundles applies the storages in Go map order (c_viewlast =
+   false: the code before the repair of F21) refutes the statement for mails: the view storage - and
+   with it the position - is written before the mail is sent; the mail then fails, the restart resumes
+   behind the event and the mail is never sent. *)
 Theorem position_le_all_effects_refuted : exists c l s o,
   0 < c_batch c /\ c_nulllast c = true /\ c_viewlast c = false /\ runG false c init l = Some s /\
   o <= pos (sp s) /\ trig (lg (sp s)) o = true /\ mailev c (lg (sp s)) o = true /\ ~ In o (mails (sp s)).
@@ -64,36 +85,34 @@ Proof.
   split; [vm_compute; reflexivity|]. cbn. split; [discriminate|]. split; [reflexivity|]. split; [reflexivity|]. intros [].
 Qed.
 
-(* ... it holds in every run in which each flush sends its mails before it writes the position
-   (the extra hypothesis is exactly what excludes the witness above) ... *)
+(* ... in that variant it holds for exactly the runs in which each flush sends its mails before it
+   writes the position (the hypothesis that excludes the witness above). *)
 Theorem position_le_all_effects_partial : forall c l s,
   0 < c_batch c -> c_nulllast c = true -> runG true c init l = Some s ->
   forall o, o <= pos (sp s) -> trig (lg (sp s)) o = true -> mailev c (lg (sp s)) o = true -> In o (mails (sp s)).
 Proof. exact (fun c l s Hb Hn => position_le_mails_partial_proved c l s (Build_cfg_ok c Hb Hn)). Qed.
 
-(* ... and in every run of an implementation that flushes the view storage last (the proposed
-   repair; the translator sets c09_flush_view_last when the source has that shape). *)
-Theorem position_le_all_effects_when_view_flushed_last : forall c l s,
-  0 < c_batch c -> c_nulllast c = true -> c_viewlast c = true -> runG false c init l = Some s ->
-  forall o, o <= pos (sp s) -> trig (lg (sp s)) o = true -> mailev c (lg (sp s)) o = true -> In o (mails (sp s)).
-Proof. exact (fun c l s Hb Hn => position_le_mails_viewlast_proved c l s (Build_cfg_ok c Hb Hn)). Qed.
-
-(* After any stop, error or restart the actualizer resumes from the stored position, which is no
-   later than the first event whose effects are not stored. *)
-Theorem resume_not_past_unpersisted : forall c l s p s',
-  0 < c_batch c -> c_nulllast c = true -> runG false c init l = Some s -> step c s (RInitOk p) = Some s' ->
+(* After any stop, error or restart the actualizer resumes from the stored position, which is before
+   the first triggering event that misses an effect (view row or mail). *)
+Theorem resume_not_past_unpersisted : forall lim nb pt l s p s',
+  runG false (code_cfg lim nb pt) init l = Some s -> step (code_cfg lim nb pt) s (RInitOk p) = Some s' ->
   rd (sr s') = pos (sp s') /\
-  forall o, trig (lg (sp s')) o = true -> ~ In o (eff (sp s')) -> rd (sr s') < o.
-Proof. exact (fun c l s p s' Hb Hn => resume_not_past_unpersisted_proved c l s p s' (Build_cfg_ok c Hb Hn)). Qed.
+  forall o, trig (lg (sp s')) o = true ->
+            (~ In o (eff (sp s')) \/ (mailev (code_cfg lim nb pt) (lg (sp s')) o = true /\ ~ In o (mails (sp s')))) ->
+            rd (sr s') < o.
+Proof.
+  exact (fun lim nb pt l s p s' => resume_all_effects_proved _ l s p s' (code_cfg_ok lim nb pt) view_storage_is_flushed_last).
+Qed.
 
 (* At least once: whenever the actualizer is quiescent - the log is completely notified and read,
-   the operator idle, no flush timer pending - every triggering event's row is stored (and, in the
-   runs of position_le_all_effects_partial, its mail sent). *)
-Theorem quiescent_all_effects : forall g c l s,
-  0 < c_batch c -> c_nulllast c = true -> runG g c init l = Some s -> quiescentb s = true ->
+   the operator idle, no flush timer pending - every triggering event's row is stored and its mail sent. *)
+Theorem quiescent_all_effects : forall lim nb pt l s,
+  runG false (code_cfg lim nb pt) init l = Some s -> quiescentb s = true ->
   forall o, trig (lg (sp s)) o = true ->
-  In o (eff (sp s)) /\ (g = true -> mailev c (lg (sp s)) o = true -> In o (mails (sp s))).
-Proof. exact (fun g c l s Hb Hn => quiescent_all_effects_proved g c l s (Build_cfg_ok c Hb Hn)). Qed.
+  In o (eff (sp s)) /\ (mailev (code_cfg lim nb pt) (lg (sp s)) o = true -> In o (mails (sp s))).
+Proof.
+  exact (fun lim nb pt l s => quiescent_all_effects_viewlast_proved _ l s (code_cfg_ok lim nb pt) view_storage_is_flushed_last).
+Qed.
 
 (* Link: an observed trace the model accepts (`agrees`: every observed action enabled with the
    observed values, the canonical hidden steps in between) is a run of the transition system, inside
@@ -103,8 +122,18 @@ Theorem accepted_traces_are_runs : forall c l l' s,
   elaborate c init l = Some (l', s) -> dom_ok 0 l = true -> runG false c init l' = Some s.
 Proof. exact (fun c l l' s H => elaborate_runG_proved c l init l' s H). Qed.
 
+(* ... and the oracle the check evaluates on observed values alone (`satisfies`) passes on every such
+   trace: what `satisfies` demands is implied by the theorems, so an oracle failure never comes from
+   a trace on which code and model agree. *)
+Theorem agrees_implies_satisfies : forall t,
+  (t_quiet t = true -> exists l0 p effs ms, t_acts t = l0 ++ [Check p effs ms]) ->
+  agrees t = true -> dom_ok 0 (t_acts t) = true -> satisfies t = true.
+Proof.
+  exact (fun t => agrees_implies_satisfies_proved t (code_cfg_ok _ _ _) (fun _ => view_storage_is_flushed_last)).
+Qed.
+
 (* ---- non-vacuity ---- *)
-Definition ex_cfg : cfg := mkCfg 2 false 3 50 1 true false.
+Definition ex_cfg : cfg := code_cfg 2 false 3.
 (* three events (the second does not trigger), both triggering ones buffered, flushed by the bundle
    limit, a failed position write (crash between rows and position), restart from 0, re-invocation,
    timer flush, one more event read after a notification, stop in the middle of its flush *)
@@ -131,6 +160,16 @@ Example quiescent_nonvacuous : exists s,
   trig (lg (sp s)) 4 = true.
 Proof. eexists. split; [vm_compute; reflexivity|]. split; reflexivity. Qed.
 
+(* second storage: a mail is sent before the rows and the position of its flush; a failing mail leaves
+   nothing behind and the event is projected again *)
+Example all_effects_nonvacuous : exists s,
+  runG false (code_cfg 100 true 3) init
+    [Append (mkEv true 1001 true); Start; RInitOk 0; RReadEnd [1]; HSend; HTake; PInvoke 1 true; PMail 1 false;
+     HNotice; HClose; HClosed; Tick; RInitOk 0; RReadEnd [1]; HSend; HTake; PInvoke 1 true; PMail 1 true;
+     PPutWS 1001 [1] VOk; PPutPos 1 VOk; HFlushDone] = Some s /\
+  pos (sp s) = 1 /\ mails (sp s) = [1] /\ mailev (code_cfg 100 true 3) (lg (sp s)) 1 = true.
+Proof. eexists. split; [vm_compute; reflexivity|]. repeat split; reflexivity. Qed.
+
 Example accepted_trace_nonvacuous :
   agrees (mkTrace 2 false 3 true
     [Append (mkEv true 1001 false); Start; RInitOk 0; RReadEnd [1]; PInvoke 1 true; RReadEnd []; Notify 1; Tick; PFlushStart;
@@ -138,10 +177,11 @@ Example accepted_trace_nonvacuous :
 Proof. vm_compute. reflexivity. Qed.
 
 Print Assumptions invoked_in_order.
+Print Assumptions position_le_all_effects.
 Print Assumptions position_le_effects.
 Print Assumptions position_le_all_effects_refuted.
 Print Assumptions position_le_all_effects_partial.
-Print Assumptions position_le_all_effects_when_view_flushed_last.
 Print Assumptions resume_not_past_unpersisted.
 Print Assumptions quiescent_all_effects.
 Print Assumptions accepted_traces_are_runs.
+Print Assumptions agrees_implies_satisfies.
